@@ -229,6 +229,25 @@ Section Path.
         end
     end.
 
+  (** Every outline the specification allows: a closed contour may start at any of its on-curve
+      points (the segments are the same, rotated); one without on-curve points at any of its
+      implied points. [spec_path c] is one of them. *)
+  Definition valid_outlines (c : list point) : list (list pathel) :=
+    match c with
+    | [] => [[]]
+    | p0 :: rest =>
+        match ptyp p0 with
+        | Move => [outline_from (pos p0) rest]
+        | _ =>
+            if forallb offc c
+            then map (fun k => spec_offcurve_only (map pos (rot k c))) (seq 0 (length c))
+            else flat_map (fun s => match nth_error c s with
+                                    | Some p => if onc p then [spec_path_at s c] else []
+                                    | None => []
+                                    end) (seq 0 (length c))
+        end
+    end.
+
   (** vocabulary of the corollaries *)
   Definition end_of (e : pathel) : option P :=
     match e with
